@@ -1,7 +1,7 @@
 SPECIFICATION Spec
 CONSTANTS
  MaxUpdates = 0
- MaxReinit = 0  FixLostWorker = TRUE
+ MaxReinit = 0 BSChoices = {} FixBlockSize = TRUE  FixLostWorker = TRUE
  CountCalls = TRUE
  NW = 3  BS = 3  Total = 10  Chunk = 2  HdrSz = 2  TailSz = 3
  Timeout = TRUE  Spurious = TRUE  MayFail = TRUE
@@ -9,5 +9,5 @@ CONSTANTS
  FlushActs = {"FULL_FLUSH", "FULL_BARRIER"}
  MaxCalls = 40
 CONSTRAINT CallBound
-INVARIANTS OrderedOutput BlocksPartitionInput BoundariesOnlyWhereRequested FlushCompletes BarrierCompletes FinishCompletes ProgressTruthful BufErrorOnlyWhenStarved DocumentedCodes QueueBound EndJoinsAll
+INVARIANTS OrderedOutput BlocksPartitionInput BoundariesOnlyWhereRequested FlushCompletes BarrierCompletes FinishCompletes ProgressTruthful BufErrorOnlyWhenStarved DocumentedCodes QueueBound EndJoinsAll InBufFits
 CHECK_DEADLOCK FALSE
